@@ -50,11 +50,40 @@ structure Conn where
   subscribed : Bool := false
   delta : Bool := false            -- keyed.channels[ch].deltaType != none
   keys : List (Key × KeySt) := []
+  gen : Nat := 0                   -- ChannelContext.subGen of the current subscription
   deriving Repr, DecidableEq, Inhabited
 
 structure Cfg where
   versionless : Bool
   keep : Bool
+  deriving Repr, DecidableEq
+
+/-- preparedData of buildPreparedPollData. -/
+structure Prep where
+  deltaSub : Bool := false
+  prevData : Option Data := none
+  prevVersion : Nat := 0
+  deriving Repr, DecidableEq
+
+/-- a delivery stalled between phase 1 (optimistic check) and phase 3 (re-check under c.mu) of
+keyedWritePublication, with the decisions phase 1 took. -/
+structure Stalled where
+  cid : ConnId
+  key : Key
+  version : Nat
+  data : Data
+  prep : Prep
+  deltaPossible : Bool
+  channelDelta : Bool
+  deriving Repr, DecidableEq
+
+/-- a track request whose (asynchronous) OnTrack verdict is still pending; `gen` = subscription generation
+captured when the request arrived. -/
+structure PendingTrack where
+  cid : ConnId
+  key : Key
+  version : Nat
+  gen : Nat
   deriving Repr, DecidableEq
 
 structure St where
@@ -65,6 +94,9 @@ structure St where
   entries : List (Key × Entry) := []
   hub : List (Key × List ConnId) := []
   conns : List (ConnId × Conn) := []
+  stalled : Option Stalled := none
+  ptracks : List PendingTrack := []
+  genCounter : Nat := 0
   deriving Repr
 
 inductive Ev where
@@ -74,13 +106,7 @@ inductive Ev where
   | removal (c : ConnId) (k : Key)
   | unsub (c : ConnId) (code : Nat)
   | disc (c : ConnId) (code : Nat)
-  deriving Repr, DecidableEq
-
-/-- preparedData of buildPreparedPollData. -/
-structure Prep where
-  deltaSub : Bool := false
-  prevData : Option Data := none
-  prevVersion : Nat := 0
+  | err (c : ConnId) (code : Nat)
   deriving Repr, DecidableEq
 
 def family (d : Data) : String := String.ofList (d.toList.take 1)
@@ -115,6 +141,28 @@ def writePub (cid : ConnId) (c : Conn) (k : Key) (pubVersion : Nat) (d : Data) (
       ({ c with keys := aset k { version := pubVersion, deltaReady := ks.deltaReady || c.delta, held := some d } c.keys },
         [Ev.push cid k pubVersion ks.version false (some d)])
 
+/-- phase 3 of a stalled keyedWritePublication: re-check under the lock against the *current* key state,
+with phase 1's `deltaPossible` / `channelDelta`. -/
+def writePub3 (c : Conn) (w : Stalled) : Conn × List Ev :=
+  match alookup w.key c.keys with
+  | none => (c, [])
+  | some ks =>
+    if w.version ≤ ks.version then (c, []) else
+    let useDelta := w.deltaPossible && ks.deltaReady && ks.version == w.prep.prevVersion
+    match (if useDelta then w.prep.prevData else none) with
+    | some base =>
+      if sameFamily base w.data then
+        let res := if ks.held = some base then some w.data else none
+        let held' := if ks.held = some base then some w.data else ks.held
+        ({ c with keys := aset w.key { version := w.version, deltaReady := true, held := held' } c.keys },
+          [Ev.push w.cid w.key w.version ks.version true res])
+      else
+        ({ c with keys := aset w.key { version := w.version, deltaReady := ks.deltaReady || w.channelDelta, held := some w.data } c.keys },
+          [Ev.push w.cid w.key w.version ks.version false (some w.data)])
+    | none =>
+      ({ c with keys := aset w.key { version := w.version, deltaReady := ks.deltaReady || w.channelDelta, held := some w.data } c.keys },
+        [Ev.push w.cid w.key w.version ks.version false (some w.data)])
+
 def subscribersOf (s : St) (k : Key) : List ConnId := (alookup k s.hub).getD []
 
 /-- hub.broadcastToKey -/
@@ -139,7 +187,7 @@ def cleanupConn (s : St) (cid : ConnId) : St :=
   | none => s
   | some c =>
     let s1 := c.keys.foldl (fun acc kv => hubRemove acc kv.1 cid) s
-    { s1 with conns := aset cid { subscribed := false, delta := false, keys := [] } s1.conns }
+    { s1 with conns := aset cid { subscribed := false, delta := false, keys := [], gen := c.gen } s1.conns }
 
 /-- all clients present in the keyed hub (collectAllClients), each once, sorted for determinism. -/
 def hubClients (s : St) : List ConnId :=
@@ -296,7 +344,59 @@ def untrack (s : St) (cid : ConnId) (k : Key) : St :=
       hubRemove s1 k cid
 
 def subscribe (s : St) (cid : ConnId) (delta : Bool) : St :=
-  { s with conns := aset cid { subscribed := true, delta := delta, keys := [] } s.conns }
+  { s with genCounter := s.genCounter + 1,
+           conns := aset cid { subscribed := true, delta := delta, keys := [], gen := s.genCounter + 1 } s.conns }
+
+/-- SharedPollPublish whose broadcast stalls, for the key's only subscriber, between phase 1 and phase 3 of
+keyedWritePublication (everything before the broadcast is as in `publish`). -/
+def publishStall (s : St) (k : Key) (v : Nat) (ep : String) (d : Data) : St × List Ev :=
+  if !s.chanExists then (s, []) else
+  let (s0, ev0) := flipEpoch s ep
+  match alookup k s0.entries with
+  | none => (s0, ev0)
+  | some entry =>
+    if v ≤ entry.version then (s0, ev0) else
+    let prevData := if s0.cfg.keep then entry.data else none
+    let entry' : Entry := { entry with version := v, data := if s0.cfg.keep then some d else entry.data }
+    let s1 := { s0 with entries := aset k entry' s0.entries }
+    let prep := buildPrep prevData entry.version
+    match subscribersOf s1 k with
+    | [cid] =>
+      match alookup cid s1.conns with
+      | none => (s1, ev0)
+      | some c =>
+        match alookup k c.keys with
+        | none => (s1, ev0)
+        | some ks =>
+          if v ≤ ks.version then (s1, ev0) else
+          ({ s1 with stalled := some { cid := cid, key := k, version := v, data := d, prep := prep,
+                                       deltaPossible := c.delta && prep.deltaSub && ks.deltaReady, channelDelta := c.delta } }, ev0)
+    | _ => (s1, ev0)
+
+/-- the stalled delivery resumes (phase 3). -/
+def release (s : St) : St × List Ev :=
+  match s.stalled with
+  | none => (s, [])
+  | some w =>
+    let s1 := { s with stalled := none }
+    match alookup w.cid s1.conns with
+    | none => (s1, [])
+    | some c =>
+      let (c', evs) := writePub3 c w
+      ({ s1 with conns := aset w.cid c' s1.conns }, evs)
+
+/-- the OnTrack verdict of the oldest pending track request arrives: commit only onto the subscription the
+request was issued on (generation match), else roll back and answer permission denied. -/
+def trackCallback (s : St) : St × List Ev :=
+  match s.ptracks with
+  | [] => (s, [])
+  | p :: rest =>
+    let s1 := { s with ptracks := rest }
+    match alookup p.cid s1.conns with
+    | none => (s1, [])
+    | some c =>
+      if c.subscribed && c.gen == p.gen then track s1 p.cid p.key p.version
+      else ({ s1 with chanExists := true }, [Ev.err p.cid 103])
 
 /-- SharedPollRevokeKeys(channel, [k], all users). -/
 def revoke (s : St) (k : Key) : St × List Ev :=
@@ -311,6 +411,10 @@ inductive Op where
   | resp (ep : String) (items : List Item)
   | pub (k : Key) (v : Nat) (ep : String) (d : Data)
   | rvk (k : Key)
+  | bgpub (k : Key) (v : Nat) (ep : String) (d : Data)     -- publish stalling inside keyedWritePublication
+  | rel                                                     -- the stalled delivery resumes
+  | trkd (c : ConnId) (k : Key) (v : Nat)                   -- track, OnTrack verdict deferred
+  | tcb                                                     -- oldest deferred verdict arrives
   deriving Repr
 
 def step (s : St) : Op → St × List Ev
@@ -322,6 +426,14 @@ def step (s : St) : Op → St × List Ev
   | .resp ep items => applyResp s ep items
   | .pub k v ep d => if s.cfg.versionless then (s, []) else publish s k v ep d
   | .rvk k => revoke s k
+  | .bgpub k v ep d => if s.cfg.versionless then (s, []) else publishStall s k v ep d
+  | .rel => release s
+  | .trkd c k v =>
+    match alookup c s.conns with
+    | some cn => if cn.subscribed then ({ s with ptracks := s.ptracks ++ [{ cid := c, key := k, version := v, gen := cn.gen }] }, [])
+                 else (s, [Ev.err c 103])
+    | none => (s, [])
+  | .tcb => trackCallback s
 
 def run (s : St) : List Op → St × List Ev
   | [] => (s, [])
